@@ -342,46 +342,74 @@ func detectRenames(ref symTable, cfg string, cur symTable, objs map[string]types
 	sort.Strings(missingTypes)
 	sort.Strings(freshTypes)
 	taken := map[string]bool{}
-	for _, mk := range missingTypes {
-		mp, _, mname := splitKey(mk)
-		best, second, bestK := -1.0, -1.0, ""
-		for _, fk := range freshTypes {
-			fp, _, _ := splitKey(fk)
-			if fp != mp || taken[fk] || cur[fk].Sig != ref[mk].Sig && (ref[mk].Sig == "struct" || ref[mk].Sig == "interface" || cur[fk].Sig == "struct" || cur[fk].Sig == "interface") {
+	matched := map[string]bool{}
+	// in rounds: a type whose definition mentions another renamed type (a slice of it, a struct holding it) has the
+	// reference's definition only after that other rename has been read back
+	sigOf := func(fk string) string {
+		sg := cur[fk].Sig
+		for nk, old := range typeRen {
+			p, _, n := splitKey(nk)
+			sg = regexp.MustCompile(regexp.QuoteMeta(p+"."+n)+`\b`).ReplaceAllString(sg, p+"."+old)
+		}
+		return sg
+	}
+	for round := 0; round < 3; round++ {
+		progress := false
+		for _, mk := range missingTypes {
+			if matched[mk] {
 				continue
 			}
-			s := jaccard(ref[mk].Members, cur[fk].Members)
-			if ref[mk].Shape != "" && ref[mk].Shape == cur[fk].Shape && s < 0.9 {
-				// the same fields in the same order under other names: judged by the methods alone
-				var rm, cm []string
-				for _, m := range ref[mk].Members {
-					if !strings.HasPrefix(m, ".") {
-						rm = append(rm, m)
+			mp, _, mname := splitKey(mk)
+			best, second, bestK := -1.0, -1.0, ""
+			for _, fk := range freshTypes {
+				fp, _, _ := splitKey(fk)
+				fsig := sigOf(fk)
+				if fp != mp || taken[fk] || fsig != ref[mk].Sig && (ref[mk].Sig == "struct" || ref[mk].Sig == "interface" || fsig == "struct" || fsig == "interface") {
+					continue
+				}
+				s := jaccard(ref[mk].Members, cur[fk].Members)
+				if ref[mk].Shape != "" && ref[mk].Shape == cur[fk].Shape && s < 0.9 {
+					// the same fields in the same order under other names: judged by the methods alone
+					var rm, cm []string
+					for _, m := range ref[mk].Members {
+						if !strings.HasPrefix(m, ".") {
+							rm = append(rm, m)
+						}
+					}
+					for _, m := range cur[fk].Members {
+						if !strings.HasPrefix(m, ".") {
+							cm = append(cm, m)
+						}
+					}
+					if ms := jaccard(rm, cm); ms >= 0.5 {
+						s = 0.9
 					}
 				}
-				for _, m := range cur[fk].Members {
-					if !strings.HasPrefix(m, ".") {
-						cm = append(cm, m)
-					}
+				if fsig == ref[mk].Sig && len(ref[mk].Members) == 0 && len(cur[fk].Members) == 0 {
+					s = 1
 				}
-				if ms := jaccard(rm, cm); ms >= 0.5 {
-					s = 0.9
+				// a defined type that is not a struct or an interface (a slice, a map, a number) with the reference's
+				// definition and as many methods: its methods may have been renamed with it
+				if fsig == ref[mk].Sig && fsig != "struct" && fsig != "interface" && len(ref[mk].Members) == len(cur[fk].Members) && s < 0.7 {
+					s = 0.7
+				}
+				if s > best {
+					second, best, bestK = best, s, fk
+				} else if s > second {
+					second = s
 				}
 			}
-			if cur[fk].Sig == ref[mk].Sig && len(ref[mk].Members) == 0 && len(cur[fk].Members) == 0 {
-				s = 1
-			}
-			if s > best {
-				second, best, bestK = best, s, fk
-			} else if s > second {
-				second = s
+			if bestK != "" && best >= 0.5 && best-second >= 0.2 {
+				taken[bestK] = true
+				matched[mk] = true
+				progress = true
+				_, _, newName := splitKey(bestK)
+				typeRen[bestK] = mname
+				recs = append(recs, renameRec{Key: mk, Old: mname, New: newName, obj: objs[bestK]})
 			}
 		}
-		if bestK != "" && best >= 0.5 && best-second >= 0.2 {
-			taken[bestK] = true
-			_, _, newName := splitKey(bestK)
-			typeRen[bestK] = mname
-			recs = append(recs, renameRec{Key: mk, Old: mname, New: newName, obj: objs[bestK]})
+		if !progress {
+			break
 		}
 	}
 
